@@ -15,6 +15,20 @@ Ltac break_hyp H :=
          end.
 
 (* ---- acquire / release: the connection table --------------------------------------------- *)
+(* the caller is already in the queue of the name: what bus_service_owner_in_queue tells the limit test *)
+Definition holds (b : bus) (c : N) (name : bytes) : bool :=
+  match lookup (b_services b) (KW name) with
+  | Some q => match find_owner q c with Some _ => true | None => false end
+  | None => false
+  end.
+
+Lemma add_owner_held k q c flags o : find_owner q c = Some o ->
+  match add_owner k q c flags with Some (_, fr, _) => fr = false | None => True end.
+Proof.
+  intros H. unfold add_owner. rewrite H. destruct (has_flag flags DBUS_NAME_FLAG_REPLACE_EXISTING); [|reflexivity].
+  destruct (unlink_conn q c); [exact I | reflexivity].
+Qed.
+
 Lemma acquire_conns b cn name flags cs ss code es :
   acquire_service b cn name flags = ROk cs ss code es ->
   find_conn (b_conns b) (c_id cn) = Some cn -> bounded (b_limit b) (b_conns b) ->
@@ -24,11 +38,22 @@ Proof.
   destruct (negb (validate_bus_name name)); [discriminate|].
   destruct (starts_with_colon name); [discriminate|].
   destruct (bytes_eqb name DBUS_SERVICE_DBUS_str); [discriminate|].
-  destruct (b_limit b <=? nlen (c_owned cn)) eqn:Hl; [discriminate|]. apply N.leb_gt in Hl.
-  assert (Badd : bounded (b_limit b) (own_add (b_conns b) (c_id cn) (KW name))) by (eapply own_add_bounded; eauto).
-  break_hyp H; try discriminate; inversion H; subst; clear H;
-    rewrite ?own_del_shapes, ?own_add_shapes; (split; [reflexivity|]);
-    repeat apply own_del_bounded; assumption.
+  assert (Badd : b_limit b <=? nlen (c_owned cn) = false -> bounded (b_limit b) (own_add (b_conns b) (c_id cn) (KW name))).
+  { intros Hl. apply N.leb_gt in Hl. eapply own_add_bounded; eauto. }
+  destruct (lookup (b_services b) (KW name)) as [[|p w]|] eqn:Hlk.
+  - cbn [find_owner] in H. destruct ((b_limit b <=? nlen (c_owned cn)) && negb false); discriminate H.
+  - destruct (find_owner (p :: w) (c_id cn)) as [o|] eqn:Hfo.
+    + (* already in the queue: no new BusOwner, services_owned does not grow *)
+      rewrite andb_false_r in H. pose proof (add_owner_held (KW name) _ _ flags _ Hfo) as Hfr.
+      destruct (add_owner (KW name) (p :: w) (c_id cn) flags) as [[[q' fr] es']|]; [subst fr|].
+      all: break_hyp H; try discriminate; inversion H; subst; clear H;
+        rewrite ?own_del_shapes; (split; [reflexivity|]); repeat apply own_del_bounded; assumption.
+    + rewrite andb_true_r in H. destruct (b_limit b <=? nlen (c_owned cn)) eqn:Hl; [discriminate|]. specialize (Badd eq_refl).
+      break_hyp H; try discriminate; inversion H; subst; clear H;
+        rewrite ?own_del_shapes, ?own_add_shapes; (split; [reflexivity|]); repeat apply own_del_bounded; assumption.
+  - rewrite andb_true_r in H. destruct (b_limit b <=? nlen (c_owned cn)) eqn:Hl; [discriminate|]. specialize (Badd eq_refl).
+    break_hyp H; try discriminate; inversion H; subst; clear H;
+      rewrite ?own_add_shapes; (split; [reflexivity|]); assumption.
 Qed.
 
 Lemma release_conns b cn name cs ss code es :
@@ -168,7 +193,7 @@ Proof.
   destruct (negb (validate_bus_name name)); [discriminate|].
   destruct (starts_with_colon name); [discriminate|].
   destruct (bytes_eqb name DBUS_SERVICE_DBUS_str); [discriminate|].
-  destruct (b_limit b <=? nlen (c_owned cn)); [discriminate|].
+  match type of H with (if ?X then _ else _) = _ => destruct X; [discriminate|] end.
   destruct (lookup (b_services b) (KW name)) as [[|p waiting]|] eqn:Hl; [discriminate| |].
   - destruct (o_conn p =? c_id cn); [inversion H; subst; apply nil_signals|].
     destruct ((has_flag flags DBUS_NAME_FLAG_DO_NOT_QUEUE && negb (o_allow p)) || (has_flag flags DBUS_NAME_FLAG_DO_NOT_QUEUE && negb (has_flag flags DBUS_NAME_FLAG_REPLACE_EXISTING))).
@@ -293,8 +318,9 @@ Proof.
   destruct (negb (validate_bus_name name)); [reflexivity|].
   destruct (starts_with_colon name); [reflexivity|].
   destruct (bytes_eqb name DBUS_SERVICE_DBUS_str); [reflexivity|].
-  destruct (l1 <=? nlen (c_owned cn)); [intros H; exfalso; apply H; reflexivity|].
-  destruct (l2 <=? nlen (c_owned cn)); [intros _ H; exfalso; apply H; reflexivity|].
+  match goal with |- context[(l1 <=? ?n) && ?h] =>
+    destruct ((l1 <=? n) && h); [intros H; exfalso; apply H; reflexivity|];
+    destruct ((l2 <=? n) && h); [intros _ H; exfalso; apply H; reflexivity|] end.
   reflexivity.
 Qed.
 
